@@ -143,8 +143,9 @@ func TestC11ChurnWithoutEligibleBackend(t *testing.T) {
 // make the balancer remember must not outlive the change).
 func TestC11ListedOnceReturned(t *testing.T) {
 	const name = "reconfig-listed-once-returned"
-	sub := lab.Sub(name, "real-thread stress: balancer with 2 fixed members under each of the 5 strategies; one admin goroutine repeats add(x) -> own GET /v1/backends must list x (and lb.ListBackends too) -> remove(x) -> own listing must not list x, "+
-		"while 2-6 observer goroutines call GET /v1/backends, lb.ListBackends, lb.NextBackend and send requests back to back; oracle: the statement's 'once add/remove returns' for the actor's own next listing; "+
+	sub := lab.Sub(name, "real-thread stress: balancer with 2 fixed members under each of the 5 strategies; one admin goroutine repeats add(x) (1, 2, 3, 8 or 24 times: repeated names are legal) -> own GET /v1/backends must list x (and lb.ListBackends too) -> remove(x) -> own listing must not list x, "+
+		"while 2-6 observer goroutines call GET /v1/backends, lb.ListBackends, lb.NextBackend and send requests back to back; oracle: the statement's 'once add/remove returns' for the actor's own next listing, and 'atomically with respect to each other' for the observers: "+
+		"a listing taken wholly between the last add's return and the next round's first add sees every backend named x or none (remove is one operation; no order of the admin operations yields a pool from which only some are gone); "+
 		"every round is non-trivial; distinct = strategy x observers; a no-progress watchdog (20 s) reports a wedge")
 	if lab.Replaying() {
 		t.Skip()
@@ -161,7 +162,8 @@ func TestC11ListedOnceReturned(t *testing.T) {
 		k := r*lab.Shards() + lab.Shard()
 		strategy := lab.Strategies[k%len(lab.Strategies)]
 		observers := 2 + (k/5)%5
-		c := map[string]any{"strategy": strategy, "observers": observers}
+		copies := []int{1, 2, 3, 8, 24}[(k/25)%5]
+		c := map[string]any{"strategy": strategy, "observers": observers, "backends_per_name": copies}
 		cur.Store(fmt.Sprint(c))
 		s, _, err := newSys(strategy, 2)
 		if err != nil {
@@ -169,6 +171,28 @@ func TestC11ListedOnceReturned(t *testing.T) {
 		}
 		var stop atomic.Bool
 		var wg sync.WaitGroup
+		// epoch is even while the actor is adding (each add is an operation of its own: any number of x entries may
+		// be seen), odd from the return of the last add until the next round's first add (the only operation on x in
+		// between is ONE remove). curName is the name of the epoch.
+		var epoch atomic.Int64
+		epoch.Store(1)
+		var curName atomic.Value
+		curName.Store("")
+		var torn atomic.Value
+		judge := func(e1 int64, names []string, how string) {
+			if e1%2 == 0 || epoch.Load() != e1 {
+				return
+			}
+			nm, n := curName.Load().(string), 0
+			for _, x := range names {
+				if x == nm {
+					n++
+				}
+			}
+			if n != 0 && n != copies {
+				torn.CompareAndSwap(nil, fmt.Sprintf("%s taken while the only admin operation in progress was remove(%s) lists %d of the %d backends registered under that name: the removal of a repeated name is visible half done", how, nm, n, copies))
+			}
+		}
 		for g := 0; g < observers; g++ {
 			wg.Add(1)
 			go func(g int) {
@@ -176,9 +200,22 @@ func TestC11ListedOnceReturned(t *testing.T) {
 				for i := 0; !stop.Load(); i++ {
 					switch (i + g) % 4 {
 					case 0:
-						_, _ = s.list()
+						e1 := epoch.Load()
+						if l, e := s.list(); e == nil {
+							names := make([]string, 0, len(l))
+							for _, it := range l {
+								names = append(names, it.Name)
+							}
+							judge(e1, names, "GET /v1/backends")
+						}
 					case 1:
-						_ = s.lb.ListBackends()
+						e1 := epoch.Load()
+						bs := s.lb.ListBackends()
+						names := make([]string, 0, len(bs))
+						for _, b := range bs {
+							names = append(names, b.Name)
+						}
+						judge(e1, names, "lb.ListBackends")
 					case 2:
 						_ = s.lb.NextBackend(lab.Request("GET", "/n", fmt.Sprintf("10.8.%d.%d:1000", g, i%250), nil))
 					default:
@@ -201,13 +238,20 @@ func TestC11ListedOnceReturned(t *testing.T) {
 			return api, direct, nil
 		}
 		viol := ""
-		for i := 0; i < perRound && viol == ""; i++ {
+		for i := 0; i < max(perRound/copies, 40) && viol == "" && torn.Load() == nil; i++ {
 			nm := fmt.Sprintf("x%d", i%3)
+			curName.Store(nm)
+			epoch.Add(1) // even: adding
 			// a refusing address: a request that reaches it before the fake transport is installed gets 502 at once
-			if code, body := s.call("POST", "/v1/backends/add", map[string]any{"name": nm, "address": "http://127.0.0.1:1", "weight": 1}); code != 200 && code != 201 {
-				viol = fmt.Sprintf("add(%s) answered %d %s", nm, code, body)
+			for j := 0; j < copies && viol == ""; j++ {
+				if code, body := s.call("POST", "/v1/backends/add", map[string]any{"name": nm, "address": fmt.Sprintf("http://127.0.0.1:%d", 1+j), "weight": 1 + j%3}); code != 200 && code != 201 {
+					viol = fmt.Sprintf("add(%s) answered %d %s", nm, code, body)
+				}
+			}
+			if viol != "" {
 				break
 			}
+			epoch.Add(1) // odd: all copies registered; only one remove follows
 			if api, direct, e := listed(nm); e != nil || !api || !direct {
 				viol = fmt.Sprintf("add(%s) has returned, but the actor's own next listing does not contain it (GET /v1/backends: %v, ListBackends: %v, err %v); iteration %d", nm, api, direct, e, i)
 				break
@@ -224,7 +268,10 @@ func TestC11ListedOnceReturned(t *testing.T) {
 		stop.Store(true)
 		wg.Wait()
 		s.lb.Stop()
-		sub.Case(c, true, strategy)
+		if v := torn.Load(); v != nil && viol == "" {
+			viol = v.(string)
+		}
+		sub.Case(c, true, strategy, fmt.Sprintf("backends-per-name=%d", copies))
 		if viol != "" {
 			lab.Violation(t, name, c, "%s", viol)
 			return
